@@ -22,7 +22,7 @@ from vlib import core
 FAMILIES = {
     #            family  L  workers
     "quick": [("all", 3)],
-    "thorough": [("rte", 5), ("rte2", 4), ("rex", 5), ("rts", 9), ("rtsbig", 4), ("utf8", 4), ("wa", 4), ("wf", 4)],
+    "thorough": [("rte5", 5), ("rte", 4), ("rte2", 4), ("rex", 4), ("rts", 9), ("rtsbig", 4), ("utf8", 4), ("wa", 4), ("wf", 4)],
 }
 ID_FAMILIES = {"rte", "rte2", "rex", "wa", "wf"}
 INVARIANTS = "Correct NoBad CarrySound ProbeOnlyExactFit NotStuck Emit"
@@ -53,7 +53,8 @@ def model_family(chk, fam, L, workers, grow_extra="{}"):
     with open(cfg, "w") as f:
         f.write('CONSTANTS\n  Family = "%s"\n  L = %d\n  GrowExtra = %s\n  Grow <- MCGrow\n  ProbeGrow <- MCProbeGrow\n' % (fam, L, grow_extra))
         f.write("INIT MCInit\nNEXT Next\nINVARIANTS %s\nCHECK_DEADLOCK FALSE\n" % INVARIANTS)
-    res = core.run_tlc("IoHelpers_MC.tla", cfg, workers=workers, timeout=3000, xmx="6g",
+    res = core.run_tlc("IoHelpers_MC.tla", cfg, workers=workers, timeout=3400, xmx="8g",
+                       env={"JAVA_TOOL_OPTIONS": "-XX:-UseGCOverheadLimit"},   # a starved machine must not turn slow GC into OOM
                        metadir=os.path.join(chk.work, "md_mc_%s_%d" % (fam, os.getpid())))
     core.tlc_must_pass(res, "IoHelpers_MC family " + fam)
     beh = res.printed("B")
@@ -320,7 +321,7 @@ def _run(chk, tier):
     per_family = {}
     with ThreadPoolExecutor(max_workers=3) as ex:
         # thorough: the allocator may also hand out one byte / 32 bytes more than asked (rte2, rtsbig)
-        futs = [(fam, L, ex.submit(model_family, chk, fam, L, 8 if fam in ("rte", "all") else 3,
+        futs = [(fam, L, ex.submit(model_family, chk, fam, L, 8 if fam in ("rte5", "all") else 3,
                                    "{1, 32}" if tier == "thorough" and fam in ("rte2", "rtsbig") else "{}")) for fam, L in fams]
         for fam, L, fu in futs:
             res, beh = fu.result()
